@@ -430,9 +430,71 @@ func isSpecialString(v vals.V) bool {
 	return false
 }
 
+func isOddName(n string) bool {
+	for _, o := range oddNames {
+		if o == n {
+			return true
+		}
+	}
+	return false
+}
+
 func classify(c Case) (bool, []string) {
 	var cls []string
 	add := func(s string) { cls = append(cls, s) }
+	for _, a := range c.Attrs {
+		if isOddName(a.Name) {
+			add("odd-name:" + a.Kind)
+			if strings.HasPrefix(a.Name, "data-v-") {
+				add("odd-name:data-v-*")
+			}
+		}
+	}
+	{
+		// the style's own display declaration crossed with v-show
+		own := ""
+		for _, a := range c.Attrs {
+			if a.Name != "style" {
+				continue
+			}
+			switch a.Kind {
+			case "static":
+				for _, d := range parseDecls(a.Text) {
+					if d.prop == "display" {
+						own = "static-" + d.val
+					}
+				}
+			case "bind", "vbind":
+				if v := c.lookup(a.Text, 0); v.K == "string" {
+					for _, d := range parseDecls(v.S) {
+						if d.prop == "display" {
+							own = "bound-string-" + d.val
+						}
+					}
+				}
+			case "obj", "vobj":
+				for _, p := range a.Pairs {
+					if v, _, _ := c.pairVal(p, 0); kebab(p.Key) == "display" && v.K == "string" {
+						own = "object-" + v.S
+					}
+				}
+			}
+		}
+		if own != "" {
+			show := "absent"
+			if c.has("show", "") {
+				show = "truthy-or-unspecified"
+				if c.showFalsy() {
+					show = "falsy"
+				}
+			}
+			if strings.HasSuffix(own, "-none") {
+				add("own-display:" + own + "+v-show-" + show)
+			} else {
+				add("own-display:other+v-show-" + show)
+			}
+		}
+	}
 	for _, a := range c.Attrs {
 		switch a.Kind {
 		case "bind", "vbind":
@@ -763,6 +825,8 @@ func tableVals() []vals.V {
 		vals.Str("url(https://x.test/v.png)"), vals.Str("red !important"), vals.Str("rgba(1, 2, 3, 0.5)"), vals.Str("local('a b'), serif"),
 		vals.Str("background-image: url(https://x.test/z.png); color: red"), vals.Str(`font-family: "Open Sans", serif; width: calc(50% + 1px)`),
 		vals.Str("background: url(http://h.test:8080/p.png) no-repeat; color: red !important"),
+		// display declarations of the style itself
+		vals.Str("none"), vals.Str("flex"), vals.Str("display: none; color: red"), vals.Str("width: 1px; display :  none ;"), vals.Str("DISPLAY: none"),
 		// ';' inside a value; quotes at the ends of a value
 		vals.Str("url(data:image/png;base64,CCCC)"), vals.Str("'a;b:c'"), vals.Str(`"Open Sans", serif`), vals.Str("serif, 'Open Sans'"),
 		vals.Str("background: url(data:image/png;base64,BBBB); color: red"), vals.Str(`content: "x;y:z"; width: 2px`))
@@ -834,6 +898,21 @@ func coreForms() []form {
 			return []Attr{{Kind: "vobj", Name: "style", Pairs: []Pair{{Key: "--u", Q: true, Src: "path", Arg: x}, {Key: "boxShadow", Src: "str", Arg: "0 0 1px rgba(1, 2, 3, 0.5)"}, {Key: "color", Src: "str", Arg: "red !important"}}},
 				st("style", "color: blue; --u: url(http://h/p?q=r:s); grid-area: 1 / 2 / 3 / 4")}
 		}},
+		{"display-static-none+show", func(x string) []Attr {
+			return []Attr{st("style", "color: blue; display: none"), {Kind: "show", Text: x}}
+		}},
+		{"display-static-upper+show", func(x string) []Attr {
+			return []Attr{{Kind: "show", Text: x}, st("style", "DISPLAY:  none ; color: blue")}
+		}},
+		{"display-obj-none+show", func(x string) []Attr {
+			return []Attr{{Kind: "obj", Name: "style", Pairs: []Pair{{Key: "display", Src: "str", Arg: "none"}, {Key: "color", Src: "str", Arg: "red"}}}, {Kind: "show", Text: x}}
+		}},
+		{"display-bind-none+static+show", func(x string) []Attr {
+			return []Attr{st("style", "color: blue; display: flex"), {Kind: "bind", Name: "style", Text: "dnone"}, {Kind: "show", Text: x}}
+		}},
+		{"display-obj-path", func(x string) []Attr {
+			return []Attr{st("style", "display: none; color: blue"), {Kind: "obj", Name: "style", Pairs: []Pair{{Key: "display", Src: "path", Arg: x}}}, {Kind: "show", Text: "yes"}}
+		}},
 		{"style-semicolon-static+show", func(x string) []Attr {
 			return []Attr{st("style", "background: url(data:image/png;base64,AAAA) no-repeat; color: blue; content: 'a;b:c'"), {Kind: "show", Text: x}}
 		}},
@@ -887,7 +966,7 @@ func corePlacements() []placement {
 func baseData(x vals.V) map[string]vals.V {
 	return map[string]vals.V{
 		"x": x, "other": vals.Str("o"), "five": vals.Int(5), "yes": vals.Bool(true), "chainoff": vals.Bool(false),
-		"markup": vals.Str("<b>h</b>"), "plain": vals.Str("txt"), "rich": vals.Str("url(https://x.test/r.png)"), "imp": vals.Str("red !important"), "quoted": vals.Str("'Open Sans', serif"),
+		"markup": vals.Str("<b>h</b>"), "plain": vals.Str("txt"), "rich": vals.Str("url(https://x.test/r.png)"), "imp": vals.Str("red !important"), "quoted": vals.Str("'Open Sans', serif"), "dnone": vals.Str("width: 1px; display: none"),
 		forList: vals.List("[]any", vals.Str("i1"), vals.Str("i2")),
 	}
 }
@@ -913,7 +992,16 @@ func enumerate(rec *ev.Rec, f *findings, shard, shards int) (int, bool) {
 	}
 	for _, v := range tableVals() {
 		for _, fm := range coreForms() {
+			extended := strings.HasPrefix(fm.name, "style-rich") || strings.HasPrefix(fm.name, "style-semicolon") || strings.HasPrefix(fm.name, "display-")
 			for _, pl := range corePlacements() {
+				if extended && !run.Thorough() {
+					// quick tier: the style-vocabulary forms go through the distinct evaluation paths only
+					switch pl.name {
+					case "div", "v-if", "v-for", "tplfor", "slot", "v-html":
+					default:
+						continue
+					}
+				}
 				// neighbours: a static attribute on each side, so that "in place" is observable
 				attrs := []Attr{{Kind: "static", Name: "lang", Text: "en"}, marker()}
 				attrs = append(attrs, fm.attrs("x")...)
@@ -923,6 +1011,38 @@ func enumerate(rec *ev.Rec, f *findings, shard, shards int) (int, bool) {
 				each(c)
 				if !ok {
 					return n, false
+				}
+			}
+		}
+	}
+	// attribute names: every odd name x form x a few values x a few placements
+	for _, name := range oddNames {
+		for _, v := range []vals.V{vals.Str("x"), vals.Bool(false), vals.Int(5), vals.Nil(), vals.Bool(true), vals.Str("")} {
+			nameForms := [][]Attr{
+				{{Kind: "static", Name: name, Text: "st"}},
+				{{Kind: "bind", Name: name, Text: "x"}},
+				{{Kind: "vbind", Name: name, Text: "x"}},
+				{{Kind: "interp", Name: name, Text: "a", Path: "x", Post: "b"}},
+				{{Kind: "static", Name: name, Text: "st"}, {Kind: "bind", Name: name, Text: "x"}},
+				{{Kind: "lit", Name: name, Text: "x > 1"}},
+				{{Kind: "static", Name: name, Text: ""}, {Kind: "bind", Name: "title", Text: "x"}, {Kind: "show", Text: "x"}},
+			}
+			for _, nf := range nameForms {
+				for _, pl := range corePlacements() {
+					switch pl.name {
+					case "div", "v-if", "v-else", "v-for", "tplfor", "slot", "v-html", "template-v-keep":
+					default:
+						continue
+					}
+					attrs := []Attr{{Kind: "static", Name: "lang", Text: "en"}, marker()}
+					attrs = append(attrs, nf...)
+					attrs = append(attrs, Attr{Kind: "static", Name: "data-b", Text: "z w"})
+					c := Case{Tag: "p", Attrs: attrs, Data: baseData(v)}
+					pl.apply(&c)
+					each(c)
+					if !ok {
+						return n, false
+					}
 				}
 			}
 		}
@@ -1094,17 +1214,22 @@ func (b *builder) anyPath(label string, loopVar bool) string {
 }
 
 var (
-	genericNames = []string{"title", "lang", "id", "alt", "name", "data-a", "data-b", "hidden"}
-	staticTexts  = []string{"x", "a b", "", "q1", "Mixed-Case_9", " pad ", "tail  ", "  lead"}
-	litNames     = []string{"v-if", "v-show", "v-for", ":lang", ":class", "v-bind:id", "v-html", "v-once", "v-else", ":style"}
-	litTexts     = []string{"x", "count", "a > b", "some text", "{a: b}", "item in items", " pad "}
-	simpleVals   = []vals.V{vals.Str("hello"), vals.Str("x"), vals.Int(7), vals.Str(""), vals.Bool(true), vals.Num("float64", "0.5"), vals.Str("a b"), vals.Nil()}
-	rowOnVals    = []vals.V{vals.Str("False"), vals.Str("FALSE"), vals.Str("00"), vals.Str(" false"), vals.Int(0), vals.Int(1), vals.Str(""), vals.Str("x"), vals.Nil(), vals.Num("uint8", "0"), vals.Num("float64", "0.5"), vals.Str("0"), vals.Num("float32", "0")}
-	truthyVals   = []vals.V{vals.Bool(true), vals.Int(1), vals.Str("x"), vals.Num("uint8", "3")}
-	classKeys    = []Pair{{Key: "k1"}, {Key: "k-2", Q: true}, {Key: "k3"}, {Key: "k4", Q: true}, {Key: "is-on", Q: true}}
-	styleKeys    = []Pair{{Key: "color"}, {Key: "fontSize"}, {Key: "backgroundColor"}, {Key: "borderTopWidth"}, {Key: "width"}, {Key: "--x", Q: true},
+	genericNames = append([]string{"title", "lang", "id", "alt", "name", "data-a", "data-b", "hidden"}, oddNames...)
+	// names that look internal or directive-like without being so, and names with punctuation
+	oddNames = []string{"data-v-app", "data-v-7ba5bd90", "data-v-html", "data-v-text", "data-vx", "v", "vfor", "v_if", "data-v-html-content2",
+		"data-v-step", "x-v-if", "xml:lang", "a.b", "data_x", "aria-label", "x:y.z", "v.once", "vbind"}
+	staticTexts = []string{"x", "a b", "", "q1", "Mixed-Case_9", " pad ", "tail  ", "  lead"}
+	litNames    = []string{"v-if", "v-show", "v-for", ":lang", ":class", "v-bind:id", "v-html", "v-once", "v-else", ":style"}
+	litTexts    = []string{"x", "count", "a > b", "some text", "{a: b}", "item in items", " pad "}
+	simpleVals  = []vals.V{vals.Str("hello"), vals.Str("x"), vals.Int(7), vals.Str(""), vals.Bool(true), vals.Num("float64", "0.5"), vals.Str("a b"), vals.Nil()}
+	rowOnVals   = []vals.V{vals.Str("False"), vals.Str("FALSE"), vals.Str("00"), vals.Str(" false"), vals.Int(0), vals.Int(1), vals.Str(""), vals.Str("x"), vals.Nil(), vals.Num("uint8", "0"), vals.Num("float64", "0.5"), vals.Str("0"), vals.Num("float32", "0")}
+	truthyVals  = []vals.V{vals.Bool(true), vals.Int(1), vals.Str("x"), vals.Num("uint8", "3")}
+	classKeys   = []Pair{{Key: "k1"}, {Key: "k-2", Q: true}, {Key: "k3"}, {Key: "k4", Q: true}, {Key: "is-on", Q: true}}
+	styleKeys   = []Pair{{Key: "color"}, {Key: "fontSize"}, {Key: "backgroundColor"}, {Key: "borderTopWidth"}, {Key: "width"}, {Key: "--x", Q: true},
 		{Key: "--myVar", Q: true}, {Key: "margin-top", Q: true}, {Key: "display"}, {Key: "padding"}, {Key: "color", Q: true}}
 	staticDecls = [][2]string{{"color", "blue"}, {"padding", "1px"}, {"width", "3px"}, {"font-size", "9px"}, {"display", "block"}, {"--x", "1"}, {"background-color", "white"}, {"margin-top", "4px"},
+		// the style's own display declarations: kept whatever v-show says, unless v-show is falsy
+		{"display", "none"}, {"display", "flex"}, {"DISPLAY", "none"}, {"display", " none "}, {"display", "inline-block"},
 		// values with CSS punctuation: colons, !important, parentheses, commas, quotes, slashes
 		{"background-image", "url(https://x.test/y.png)"}, {"background", "url(//cdn.test:8080/a.png) no-repeat"}, {"color", "blue !important"},
 		{"font-family", "'Open Sans', serif"}, {"width", "calc(100% - 2px)"}, {"content", `"a:b"`}, {"--u", "url(http://h/p?q=r:s)"},
@@ -1114,7 +1239,8 @@ var (
 	styleStrs = []vals.V{vals.Str("color:red"), vals.Str("color: red; width: 2px;"), vals.Str("font-size:3px;margin:0"), vals.Str("display:block"), vals.Str(""), vals.Str("--x: 2; padding : 0"),
 		vals.Str("background-image: url(https://x.test/z.png); color: red"), vals.Str("color: red !important"), vals.Str(`font-family: "Open Sans", serif; width: calc(50% + 1px)`),
 		vals.Str("background: url(http://h.test:8080/p.png) no-repeat; margin-top: 0"), vals.Str("content: 'k:v'; color: rgba(9, 8, 7, 0.1)"),
-		vals.Str("background: url(data:image/png;base64,BBBB); color: red"), vals.Str(`content: "x;y:z"; width: 2px`)}
+		vals.Str("background: url(data:image/png;base64,BBBB); color: red"), vals.Str(`content: "x;y:z"; width: 2px`),
+		vals.Str("display: none"), vals.Str("display:none;color:red"), vals.Str("width: 1px; display :  none ;"), vals.Str("display: flex"), vals.Str("DISPLAY: none; width: 1px")}
 	richStyleVals = []vals.V{vals.Str("url(https://x.test/v.png)"), vals.Str("red !important"), vals.Str("rgba(1, 2, 3, 0.5)"), vals.Str("calc(100% - 2px)"),
 		vals.Str("local('a b'), serif"), vals.Str("color 0.3s ease-in, width 1s"), vals.Str("1 / 2"), vals.Str("url(//h.test:81/a?b=c:d)"), vals.Str(`"Open Sans", serif`), vals.Str("'k:v'"),
 		vals.Str("url(data:image/png;base64,CCCC)"), vals.Str("'a;b:c'"), vals.Str(`"q;r"`), vals.Str("serif, 'Open Sans'")}
@@ -1125,6 +1251,15 @@ var (
 
 func (b *builder) pairValue(label string, p Pair, pool []vals.V, loopVar bool) Pair {
 	t := b.t
+	if kebab(p.Key) == "display" && chance(t, label+"-disp", 75) {
+		v := pick(t, label+"-dv", []string{"none", "none", "flex", "block"})
+		if chance(t, label+"-dl", 50) {
+			p.Src, p.Arg = "str", v
+		} else {
+			p.Src, p.Arg = "path", b.newVar(vals.Str(v))
+		}
+		return p
+	}
 	if len(pool) > 0 && pool[0].S == styleVals[0].S && chance(t, label+"-rich", 35) {
 		// style objects: values with CSS punctuation, from data and as quoted literals
 		if chance(t, label+"-richlit", 35) {
@@ -1426,6 +1561,21 @@ func genCase(f *findings, table []vals.V) func(t *rapid.T) Case {
 			attrs = append(attrs, Attr{Kind: "lit", Name: lperm[i], Text: pick(t, fmt.Sprintf("lit%d", i), litTexts)})
 		}
 		attrs = append(attrs, marker())
+		// an upper-case static property name next to a bound style is not generated: whether a bound
+		// `display` overrides a static `DISPLAY` (same property to CSS, different text) is left open
+		boundStyle := false
+		for _, a := range attrs {
+			if a.Name == "style" && a.Kind != "static" {
+				boundStyle = true
+			}
+		}
+		if boundStyle {
+			for i, a := range attrs {
+				if a.Kind == "static" && a.Name == "style" {
+					attrs[i].Text = strings.ReplaceAll(a.Text, "DISPLAY", "display")
+				}
+			}
+		}
 		c.Attrs = rapid.Permutation(attrs).Draw(t, "order")
 		return f.repair(c)
 	}
